@@ -25,7 +25,10 @@ having issued* (mapping() of each obfuscator + the password mask):
  (e) no claimed system short name / FQDN / other host of the domain occurs;
  (f) no claimed MAC other than all-zero/broadcast occurs (same fabricated-address scan).
 "Claimed" (textgen.claimed) = well-formed and not glued to characters of the token's own syntax;
-everything else is counted under an `unclaimed:*` label and not asserted (DESIGN C08 X)."""
+everything else is counted under an `unclaimed:*` label and not asserted (DESIGN C08 X).  One class has no
+delimiter rule: *every* textual occurrence of the system's short name counts ("no occurrence of the system's
+short ... host name"; the unchanged obfuscator ends with a plain str.replace) - the content also carries the
+short name inside longer words (rhel_<name>-root, <name>pool, prod<name>, x.<name>.lan)."""
 import contextlib
 import json
 import logging
@@ -64,7 +67,9 @@ RULE = ("tagged lines built from delimited tokens (IPv4 incl. textual prefix/suf
         "patterns anchored with '$' / '^' to the true end / start of a line}. "
         "Non-trivial: >= 1 claimed token whose class is enabled and (>= 2 token classes on one line, or a token at "
         "line start/end, or a repeated token, or two IPs where one is a textual prefix/suffix of the other, or a "
-        "keyword inside a host name, or a line that had to be redacted next to one that had to stay); distinct by "
+        "keyword inside a host name, or a line that had to be redacted next to one that had to stay, or the system's "
+        "short name inside a longer word: glued to letters / digits / '-' / '_' / '.' on either side - volume-group, "
+        "pool, log and interface names built from the machine's name - at any part boundary of a line); distinct by "
         "(rendered content, configuration, entry point).")
 ASSUMPTIONS = [
     "Python's re.search is the reference matcher for regex exclusion patterns (POSIX bracket classes are "
@@ -72,7 +77,9 @@ ASSUMPTIONS = [
     "the substitutes exempted by the statement are exactly those reported by mapping() of the hostname/ip/ipv6/"
     "mac/keyword obfuscators plus the password mask '********'",
     "an occurrence is 'recognised' only if it is well formed and delimited as described in DESIGN.md C08 X "
-    "(textgen.claimed)",
+    "(textgen.claimed); the system's short name is the exception - the statement says 'no occurrence', the "
+    "unchanged obfuscator replaces every textual occurrence (str.replace), so every occurrence counts whatever "
+    "stands next to it",
     "the configuration object only needs the attributes obfuscate, obfuscate_hostname, obfuscate_ipv6, "
     "obfuscate_mac (+ display_name) (types.SimpleNamespace stands in for InsightsConfig; when the configuration "
     "is loaded from files a real InsightsConfig is used for loader and cleaner, except for the switch combination "
@@ -92,7 +99,8 @@ ASSUMPTIONS = [
 EXCLUDED = [
     "MAC glued to ':' '-' or a hex digit (would be a longer address; the pattern's look-arounds exclude it)",
     "IPv4 glued to a word character or to '.<digit>'; octets with leading zeros; first octet 0",
-    "host name glued to another label character ([A-Za-z0-9_.-]); upper-/mixed-case variants of the system "
+    "FQDN / other host of the domain glued to another label character ([A-Za-z0-9_.-]) (not the short name: "
+    "every occurrence of it counts); upper-/mixed-case variants of the system "
     "name; the bare domain without a host label",
     "secrets containing characters outside the masker's class; Password/PASSWORD keys; separators other than "
     "those of the masker's first expression; secrets made of '=' characters only (indistinguishable from the "
@@ -175,6 +183,17 @@ def selftest():
     assert render_yaml([], None, {"null_empty": True, "layout": "flow"}) == "keywords:\npatterns:\n"
     assert file_text({"eols": ["\r\n", "\r"], "final_newline": False}, ["a", "b", "c"]) == "a\r\nb\rc"
     assert split_lines("a\r\nb\rc\n") == ["a", "b", "c"] and split_lines("a\n\nb") == ["a", "", "b"]
+    # the system's short name inside a longer word is an occurrence (for `short` only); what is glued on is harmless
+    c = {"fqdn": "web01.corp.acme.org"}
+    assert _claimed(c, "short", "#1#/dev/mapper/rhel_web01-root /", 20, 25) and not tg.claimed("short", "#1#/dev/mapper/rhel_web01-root /", 20, 25)
+    assert _claimed(c, "short", "prodweb01", 4, 9) and _claimed(c, "short", "web01pool", 0, 5) and _claimed(c, "short", "x.web01.lan", 2, 7)
+    assert not _claimed(c, "short", "prodweb02", 4, 9) and not _claimed(c, "fqdn", "xweb01.corp.acme.org", 1, 20)
+    assert not _claimed(c, "host", "db.corp.acme.org-x", 0, 16) and not _claimed(c, "ip", "v1.2.3.4", 1, 8)
+    for g in GLUE_LEFT + GLUE_RIGHT + _WORD_LEFT + _WORD_RIGHT:
+        assert (re.match(r"[a-z0-9_.-]*\Z", g) or g in _WORD_LEFT + _WORD_RIGHT) and "password" not in g, g
+        for s in tg.HOST_STEMS + tg.EMITTED_WORDS:
+            assert s.lower() not in g, (s, g)
+    assert all(g[-1] not in tg.WORD and g[-1] not in ".-" for g in _WORD_LEFT) and all(g[0] not in tg.WORD and g[0] not in ".-" for g in _WORD_RIGHT)
     # the masking step: a substitute hides exactly itself
     assert _mask_line("x 10.230.230.1 10.230.230.15 y", ["10.230.230.1"], []) == "x \x00 10.230.230.15 y"
 
@@ -644,6 +663,28 @@ def _ip_delimited(ip, line):
 
 # ---- the oracle --------------------------------------------------------------------------------------
 
+def _short_of(fqdn):
+    return fqdn.split(".")[0]
+
+
+def _claimed(case, kind, rendered, start, end, part=None):
+    """textgen.claimed - the delimiter rules of DESIGN C08 X - for every class but one: the statement speaks of
+    *every occurrence* of the system's short host name ("no occurrence of the system's short ... host name"), and
+    that is what the unchanged obfuscator does (Hostname.parse_line ends with a plain str.replace: "catch any
+    non-fqdn instances of the system hostname") - so a `short` part that spells the system's short name is an
+    occurrence whatever stands next to it (the volume group rhel_<name>-root, <name>pool, prod<name>, x.<name>.lan).
+    FQDNs and other hosts of the domain keep their delimiter rules (there the recogniser is an expression with
+    its own idea of where a name starts)."""
+    if kind == "short" and rendered[start:end] and rendered[start:end] == _short_of(case["fqdn"]):
+        return True
+    return tg.claimed(kind, rendered, start, end, part)
+
+
+def _neighbour_class(ch):
+    return ("line-edge" if ch in ("", "\n") else "letter" if ch.isalpha() else "digit" if ch.isdigit() else
+            "hyphen" if ch == "-" else "underscore" if ch == "_" else "dot" if ch == "." else None)
+
+
 def _pattern_hits(case, lines):
     """per input line: True (has to go), False (no pattern applies) or None (depends on whether the
     line terminator counts)"""
@@ -776,7 +817,7 @@ def check_clean(case):
     # claimed occurrences per class
     claimed = dict((k, {}) for k in ("ip", "mac", "short", "fqdn", "host", "pw"))   # text -> [line idx]
     classes_per_line = []
-    edge = repeated = False
+    edge = repeated = glued_short = False
     all_host_spans = []
     for idx, (ln, l) in enumerate(zip(case["lines"], lines)):
         kinds_here = set()
@@ -788,9 +829,15 @@ def check_clean(case):
             if kind == "kw":
                 kinds_here.add("kw")
                 continue
-            if not tg.claimed(kind, l, s, e, part):
+            if not _claimed(case, kind, l, s, e, part):
                 labels.add("unclaimed:" + kind)
                 continue
+            if kind == "short" and not tg.claimed(kind, l, s, e, part):
+                # inside a longer word: claimed by the statement ("no occurrence"), not by a delimiter rule
+                glued_short = True
+                for side, ch in (("left", l[s - 1] if s > 0 else ""), ("right", l[e] if e < len(l) else "")):
+                    if _neighbour_class(ch) not in (None, "line-edge"):
+                        labels.add("short:glued:%s=%s" % (side, _neighbour_class(ch)))
             key = part[2] if kind == "pw" else text
             claimed[kind].setdefault(key, []).append(idx)
             kinds_here.add("host" if kind in tg.HOST_KINDS else kind)
@@ -823,7 +870,7 @@ def check_clean(case):
             labels.add("exempt:password")
             continue
         if any(part[0] == "pw" and len(part) > 2 and part[2] == secret
-               and part[1].find(secret) < len(part[1]) - len(secret)
+               and part[1].find(secret) < part[1].rfind(secret)
                for ln in case["lines"] for part in ln["parts"]):
             # the secret's text also occurs inside its own key / separator ("password2=d2=": 'd2=' is the tail of
             # the key): finding it in the output says nothing about the secret (false alarm found by the thorough
@@ -947,7 +994,8 @@ def check_clean(case):
     mixed_redact = dropped_required > 0 and kept_required > 0
     for flag, name in ((multi, "nt:multi-class-line"), (edge, "nt:token-at-line-edge"), (repeated, "nt:repeated-token"),
                        (prefix_pair, "nt:ip-prefix-pair"), (kw_in_host, "nt:keyword-in-hostname"),
-                       (mixed_redact, "nt:redacted-next-to-kept")):
+                       (mixed_redact, "nt:redacted-next-to-kept"),
+                       (glued_short and "short" in active, "nt:short-name-inside-longer-word")):
         if flag:
             labels.add(name)
     if case.get("width"):
@@ -956,7 +1004,8 @@ def check_clean(case):
         labels.add("allowlist")
     if not out:
         labels.add("empty-output")
-    nontrivial = (bool(active) and (multi or edge or repeated or prefix_pair or kw_in_host)) or mixed_redact
+    nontrivial = (bool(active) and (multi or edge or repeated or prefix_pair or kw_in_host)) or mixed_redact \
+        or (glued_short and "short" in active)
     key = {"lines": lines, "entry": case["entry"], "obf": obf, "no_obf": sorted(no_obf), "kw": kws,
            "pat": case.get("patterns"), "nr": bool(case.get("no_redact")), "al": case.get("allowlist"),
            "w": bool(case.get("width")), "fqdn": case["fqdn"], "ns": case.get("name_source"),
@@ -968,7 +1017,7 @@ def _inside(case, lines, text, kinds):
     """every plain occurrence of `text` in the input lies inside a claimed part of one of `kinds`
     (otherwise a hit in the output could stem from an occurrence the property does not speak about)"""
     for ln, l in zip(case["lines"], lines):
-        sp = [(s, e) for kind, t, s, e, part in tg.spans(ln) if kind in kinds and tg.claimed(kind, l, s, e, part)]
+        sp = [(s, e) for kind, t, s, e, part in tg.spans(ln) if kind in kinds and _claimed(case, kind, l, s, e, part)]
         for i in _occurrences(text, l):
             if not any(s <= i and i + len(text) <= e for s, e in sp):
                 return False
@@ -1191,6 +1240,35 @@ def _conf_style(draw, fmt):
             "eol": eol, "redaction_file": draw(st.sampled_from([None, None, "commands", "empty"]))}
 
 
+# the machine's short name as part of a longer word: the installer's default volume group rhel_<name> (so fstab,
+# lvs, df, mount, grub's rd.lvm.lv= all carry .../rhel_<name>-root), <name>pool, prod<name>, <name>-mgmt,
+# <name>.lan, log and job names.  What is glued on is lower-case letters / digits / '-' / '_' / '.', contains no
+# host stem, nothing an obfuscator emits and no "password" (selftest), and the word as a whole stands between
+# ordinary delimiters - so it neither forms nor extends any other token
+GLUE_LEFT = ["prod", "rhel_", "vg-", "x", "2", "0-", "bk", "lv_1", "k8s-", "-", "x.", ""]
+GLUE_RIGHT = ["pool", "-root", "-mgmt", "2", "db", "s", "-1", "_log", "-", "0", ".lan", ""]
+_WORD_LEFT = [" ", " ", " ", "\t", ",", ";", "|", "/", "=", "'", " /dev/", " lv="]
+_WORD_RIGHT = [" ", " ", " ", "\t", ",", ";", "|", "/", "]", "'"]
+
+
+def _embed_short(draw, lines, short, width):
+    """put 1-2 words that contain the system's short name (`short` parts between glue) at part boundaries of
+    the content; in width mode only behind the last column (the padding behind an address must stay)"""
+    for _ in range(draw(st.sampled_from([1, 1, 2]))):
+        ln = lines[draw(st.integers(0, len(lines) - 1))]
+        left, right = draw(st.sampled_from(GLUE_LEFT)), draw(st.sampled_from(GLUE_RIGHT))
+        if not left and not right:
+            right = GLUE_RIGHT[0]
+        at = len(ln["parts"]) if width else draw(st.integers(0, len(ln["parts"])))
+        word = [["fill", draw(st.sampled_from(_WORD_LEFT)) + left], ["short", short],
+                ["fill", right + draw(st.sampled_from(_WORD_RIGHT))]]
+        if at == 0 and draw(st.booleans()):
+            word[0][1] = left                             # the word opens the line
+        if at == len(ln["parts"]) and draw(st.booleans()):
+            word[2][1] = right                            # ... or closes it
+        ln["parts"][at:at] = [p for p in word if p[1]]
+
+
 @st.composite
 def _case(draw, tier):
     w = recase_world(draw(tg.world()), draw(st.sampled_from(_SHORT_STYLES)), draw(st.sampled_from(_DOMAIN_STYLES)))
@@ -1206,6 +1284,8 @@ def _case(draw, tier):
         # behind a blank - what exclusion patterns are sliced from, too
         if not width and draw(tg.rarely(5)):
             ln["parts"].append(["fill", draw(st.sampled_from([" ", "\t", ", "])) + draw(st.sampled_from(LOCAL_WORDS))])
+    if draw(tg.rarely(3)):
+        _embed_short(draw, lines, _short_of(w["fqdn"]), width)
     rendered = tg.render(lines)
     entry = draw(st.sampled_from(["list", "file", "file", "str", "file", "write", "write", "textfile", "textfile", "write"]))
     obf = {"obfuscate": not draw(tg.rarely(6)), "hostname": not draw(tg.rarely(6)),
@@ -1343,6 +1423,12 @@ REGRESSIONS = [
         conf_via={"format": "yaml", "style": {"quote": ["plain", "single", "double"], "layout": "flow", "regex_layout": "flowmap",
                                               "order": 1, "comments": True, "doc_start": True, "eol": "\n",
                                               "redaction_file": "commands"}})),
+    # the short name inside longer words (default volume group of the installer, pool / job / log names)
+    Reg("short-name-inside-longer-words", "clean", _reg([
+        _ln(90, [["fill", "/dev/vg_"], ["short", "node-7"], ["fill", "-swap none, "], ["fill", "prod"], ["short", "node-7"],
+                 ["fill", " "], ["short", "node-7"], ["fill", "b ("], ["fqdn", "node-7.lab.rhtest.net"], ["fill", ")"]]),
+        _ln(91, [["short", "node-7"], ["fill", "2.lan|x."], ["short", "node-7"], ["fill", " 0"], ["short", "node-7"]], "end")],
+        fqdn="node-7.lab.rhtest.net", entry="textfile", eols=["\n"])),
     Reg("no-redact-still-obfuscates", "clean", _reg([
         _ln(5, [["fill", "hop "], ["ip", "192.168.1.77"], ["fill", " "], ["short", "web01"]])],
         no_redact=True, patterns={"mode": "plain", "items": ["hop"]}, entry="write")),
